@@ -2,6 +2,7 @@
 #include <osmium/index/map/dense_mem_array.hpp>
 #include <osmium/index/map/sparse_mem_array.hpp>
 #include <osmium/index/map/flex_mem.hpp>
+#include <osmium/index/map/sparse_mem_map.hpp>
 #include <osmium/handler/node_locations_for_ways.hpp>
 #include <osmium/builder/osm_object_builder.hpp>
 #include <osmium/memory/buffer.hpp>
@@ -26,6 +27,7 @@ static std::unique_ptr<MapT> make(int kind) {
         case 1: return std::unique_ptr<MapT>{new index::map::SparseMemArray<Id, Location>};
         case 2: case 3: return std::unique_ptr<MapT>{new index::map::FlexMem<Id, Location>};
         case 4: return std::unique_ptr<MapT>{new index::map::FlexMem<Id, Location>{true}};
+        case 5: return std::unique_ptr<MapT>{new index::map::SparseMemMap<Id, Location>};
         default: return nullptr;
     }
 }
